@@ -53,6 +53,14 @@ Theorem C17_addr : forall f : flags, type_facts f ->
 Proof. exact addr_lemma. Qed.
 Print Assumptions C17_addr.
 
+(* if each mechanism's two halves are inverse to each other, a value goes through its custom form
+   and back unchanged, for every type and handle: decode undoes with the mechanism encode used *)
+Theorem C17_rt : forall (X W : Type) (marshal : mech -> X -> W) (unmarshal : mech -> W -> X),
+  (forall m x, unmarshal m (marshal m x) = x) ->
+  forall f x, decX X W unmarshal f (encX X W marshal f x) = x.
+Proof. exact rt_lemma. Qed.
+Print Assumptions C17_rt.
+
 (* ---- F17-1 (known finding): a registered extension is never looked up on the normal path.
    encoder.fn and decoder.fn pass checkExt = false (fnNoExt passes true): the statement "a type
    with a registered extension is encoded by it" is false of the code as it stands. ---- *)
